@@ -73,9 +73,11 @@ fn is_eager_code_fetch(case: &Case, key: &Key, clean: &RefRun, faulty_in_order: 
     if !reads_holder || clean.loaded[k].contains(key) {
         return false;
     }
-    // the in-order run on the same faulty database gets past k
-    if let Some((k2, _)) = &faulty_in_order.error &&
-        *k2 <= k
+    // the in-order run on the same faulty database gets past k - or, when the plan has several
+    // faulty keys, fails at k as well but on *another* key that transaction k reads after the
+    // point where grevm fetched the code it did not need
+    if let Some((k2, sig2)) = &faulty_in_order.error &&
+        (*k2 < k || (*k2 == k && sig2 == sig))
     {
         return false;
     }
